@@ -33,6 +33,11 @@ def set_mode(m):
     MODE[0] = m
 
 
+# solver cross-check (xcheck.py): the discharged (unsat) obligation queries of the running scenario, as SMT-LIB 2 text
+XDUMP = []
+XDUMP_ON = [bool(os.environ.get('MIRSYM_XCHECK'))]
+
+
 def is_int():
     return MODE[0] == 'int'
 
@@ -532,6 +537,8 @@ class Exec:
             raise Inconclusive('solver returned unknown for obligation "%s" at %s' % (kind, where))
         else:
             s.discharged.append(key)
+            if XDUMP_ON[0] and len(XDUMP) < 4000:
+                XDUMP.append(so.to_smt2())
         st.pc.append(cond)
 
     # ---------------------------------------------------------------- ledger events
